@@ -532,6 +532,10 @@ func substArgs(d string, call ssa.CallInstruction) string {
 }
 
 // isInduction reports whether phi is a simple induction variable (const start, +1 step), which desc renders as "#i".
+// walkStartMax: the latest index at which a walk may start and still count as a walk over "every i" (0; a rule
+// whose statement is trivial for the first element - "for every i > 0" - raises it to 1 while it runs).
+var walkStartMax int64 = 0
+
 func isInduction(phi *ssa.Phi) bool {
 	if len(phi.Edges) < 2 {
 		return false
@@ -539,6 +543,12 @@ func isInduction(phi *ssa.Phi) bool {
 	nConst, nStep := 0, 0
 	for _, e := range phi.Edges {
 		if _, ok := e.(*ssa.Const); ok {
+			// the walk starts at the first element: 0 (-1 for the pre-incremented index of a range loop); a loop that
+			// starts elsewhere does not visit "every i" and its variable is not the induction symbol
+			c, isInt := constInt(e)
+			if !isInt || !((c >= 0 && c <= walkStartMax) || (c == -1 && phi.Comment == "rangeindex")) {
+				return false
+			}
 			nConst++
 			continue
 		}
